@@ -29,13 +29,13 @@ def _tables():
     return _state['tables']
 
 
-def make_table(rnd):
+def make_table(rnd, mode=None):
     """a code table with the SAME ids as the bundled one (same size: a freed table's address is reused by the next one)
     that DISAGREES with it: decoded ids get another decoded name or an undecoded one, undecoded ids get a decoded name"""
     from .pairing import default_codes
     handled, names, inert = _tables()
     t = dict(default_codes())
-    mode = rnd.choice(['rotate', 'rename', 'mix', 'mix'])
+    mode = mode or rnd.choice(['rotate', 'rename', 'mix', 'mix'])
     for k, i in enumerate(handled):
         r = rnd.random()
         if mode == 'rotate' or (mode == 'mix' and r < 0.3):
@@ -50,19 +50,20 @@ def make_table(rnd):
     return t, named
 
 
-def burst(rnd=None):
-    """one burst of decoy activity; every exception inside it is swallowed (decoys are not under test)"""
+def burst(rnd=None, full=False):
+    """one burst of decoy activity; every exception inside it is swallowed (decoys are not under test).
+    full: EVERY decoded id is fed once under a table that gives every decoded id another decoded name"""
     if _state['busy']:
         return
     _state['busy'] = True
     try:
-        _burst(rnd or _state['rnd'])
+        _burst(rnd or _state['rnd'], full)
         _state['bursts'] += 1
     finally:
         _state['busy'] = False
 
 
-def _burst(rnd):
+def _burst(rnd, full=False):
     from pykdebugparser.traces_parser import TracesParser
     from pykdebugparser.pykdebugparser import PyKdebugParser
     from pykdebugparser.kevent import from_kd_buf
@@ -70,13 +71,15 @@ def _burst(rnd):
     from .pairing import default_codes
     import gc
     handled, names, inert = _tables()
-    table, named = make_table(rnd)                     # a fresh dict object every time (its id() will be reused later)
+    table, named = make_table(rnd, 'rotate' if full else None)      # a fresh dict object every time (its id() will be reused later)
     shared = rnd.random() < 0.5
     if shared:                                         # ... or the caller's one table object, refilled in place
         CALLER_TABLE.clear()
         CALLER_TABLE.update(table)
         table = CALLER_TABLE
     ids = rnd.sample(handled, 30) + [i for i in handled if (i >> 24) in (7, 37, 3, 31)][:40] + rnd.sample(named, min(40, len(named)))
+    if full:
+        ids = list(handled) + named
     recs = []
     ts = 5
     for eid in ids:
